@@ -3,7 +3,7 @@
    (bolt_enc_checked, xp_hdr_checked, dubbo_setdata_resets_raw read from the source on every run). *)
 From Coq Require Import List NArith Bool.
 From MV Require Import Lib.Bytes Lib.Dec Lib.Seg Model.CodecParams Model.HeaderKV Model.Bolt Model.Xcodecs
-  Proofs.HeaderKV Proofs.Bolt Proofs.BoltEnc Proofs.Xcodecs Proofs.XcodecsEnc.
+  Proofs.HeaderKV Proofs.Bolt Proofs.BoltEnc Proofs.Xcodecs Proofs.XcodecsEnc Proofs.EncLen.
 (* the generated files are only Required (never imported): every name below is the committed expected value of
    Model/CodecParams.v unless it is qualified with MV.Gen. *)
 From MV Require Gen.ProtoConsts Gen.CodecSrc.
@@ -22,8 +22,8 @@ Theorem c01_codec_gen_matches_expected :
   MV.Gen.ProtoConsts.ProtoConsts_all = ProtoConsts_all /\ MV.Gen.CodecSrc.CodecSrc_all = CodecSrc_all.
 Proof. exact (conj eq_refl eq_refl). Qed.
 Theorem c01_codec_src_repaired : MV.Gen.CodecSrc.bolt_enc_checked = true /\ MV.Gen.CodecSrc.xp_hdr_checked = true /\ MV.Gen.CodecSrc.dubbo_setdata_resets_raw = true /\ MV.Gen.CodecSrc.thrift_copies_frame = true /\
-  MV.Gen.CodecSrc.setdata_sees_inplace_rewrite = true.
-Proof. exact (conj eq_refl (conj eq_refl (conj eq_refl (conj eq_refl eq_refl)))). Qed.
+  MV.Gen.CodecSrc.setdata_sees_inplace_rewrite = true /\ MV.Gen.CodecSrc.thrift_enc_fields_after_body = true.
+Proof. exact (conj eq_refl (conj eq_refl (conj eq_refl (conj eq_refl (conj eq_refl eq_refl))))). Qed.
 
 (* FAST PATH.  For every content of the read buffer from which Decode extracts a frame (any field values, any
    class/header/content lengths, any header pairs, any body) and every id: Decode, SetRequestId(id), Encode returns the
@@ -183,3 +183,56 @@ Theorem c01_in_place_same_length :
    b_cchanged (rewrite_in_place d c) = true /\ b_content (rewrite_in_place d c) = d).
 Proof. exact (conj bolt_in_place_same_length (conj boltv2_in_place_same_length rewrite_other_length_changes)). Qed.
 Print Assumptions c01_in_place_same_length.
+
+(* CONSISTENT LENGTH FIELDS, ON THE EMITTED BYTES.  rd out lo hi / fld out (lo,hi) = the big-endian value of the bytes
+   [lo,hi) of the emitted frame: a field reader that knows nothing of the encoders.  For every frame that takes an encoder's
+   slow path - header or body changed through the setters, or a frame without raw bytes (built locally: hijack reply,
+   heartbeat, NewRpcRequest/Response) - and for EVERY class / header block / body of every size the fields can hold (the
+   bolt encoder refuses the others: c01_modify_roundtrip), every length field of the emitted frame is the length of the
+   part it describes, the parts sit where the fields say, and they add up to the length of the frame.  The harness
+   evaluates the same readers on the bytes the real encoders emit (finder <codec>:reencoded-frame-length-field-inconsistent)
+   and compares the full emitted bytes with the models' bytes (enc_case, xenc_case, xslow_case), with re-encoded sizes on
+   both sides of 1024 / 2048 / 4096 / 8192 / 65536. *)
+Theorem c01_encoded_length_fields :
+  (* bolt, boltv2 *)
+  (forall mem c out c', (b_raw c = None \/ (b_hchanged c || b_cchanged c) = true) -> bolt_encode mem c = EncOk out c' ->
+    let L := layout_of (b_v2 c) (b_resp c) in
+    fits c = true /\
+    fld out (l_class L) = blen (b_class c) /\ fld out (l_header L) = hdr_enc_len (b_kvs c) /\ fld out (l_content L) = blen (b_content c) /\
+    blen out = l_hlen L + blen (b_class c) + hdr_enc_len (b_kvs c) + blen (b_content c) /\
+    sub out (l_hlen L) (l_hlen L + blen (b_class c)) = b_class c /\
+    sub out (l_hlen L + blen (b_class c)) (l_hlen L + blen (b_class c) + hdr_enc_len (b_kvs c)) = hdr_encode (b_kvs c) /\
+    sub out (l_hlen L + blen (b_class c) + hdr_enc_len (b_kvs c)) (blen out) = b_content c) /\
+  (* dubbo: SetData(d), Encode *)
+  (forall mem f d, blen (x_magic f) = 2 -> length (x_nums f) = 8%nat -> dubbo_HeaderLen + blen d < U32 ->
+    let out := dubbo_encode mem (dubbo_set_data true d f) in
+    blen out = dubbo_HeaderLen + blen d /\ rd out 12 16 = blen d /\ sub out dubbo_HeaderLen (blen out) = d) /\
+  (* dubbo-thrift: the slow path, whatever the thrift library writes for service name and id *)
+  (forall whdr svc id payload, thrift_HeaderIdx + blen (whdr svc id) < U16 ->
+    thrift_MessageLenSize + thrift_HeaderIdx + blen (whdr svc id) + blen payload < U32 ->
+    let out := thrift_encode_slow whdr svc id payload in
+    let hlen := thrift_HeaderIdx + blen (whdr svc id) in
+    blen out = thrift_MessageLenSize + hlen + blen payload /\
+    rd out 0 4 = blen out - 4 /\ rd out 6 10 = blen out - 4 /\ rd out 10 12 = hlen /\
+    sub out (thrift_MessageLenSize + hlen) (blen out) = payload) /\
+  (* tars: the length prefix in front of what TarsGo wrote *)
+  (forall (pkt : Type) (jwrite : bool -> pkt -> bytes) resp p, tars_MessageSizeLen + blen (jwrite resp p) < U32 ->
+    let out := tars_encode pkt jwrite resp p in
+    rd out 0 4 = blen out /\ sub out tars_MessageSizeLen (blen out) = jwrite resp p).
+Proof.
+  exact (conj (fun mem c out c' => bolt_slow_length_fields mem c out c')
+        (conj dubbo_set_data_length_field (conj thrift_slow_length_fields tars_length_prefix))).
+Qed.
+Print Assumptions c01_encoded_length_fields.
+
+(* the encoder shape excluded by the source switch thrift_enc_fields_after_body (c01_codec_src_repaired): the message length
+   written through a slice of the 1024-byte scratch buffer that was taken before the body was appended.  Up to 1024 bytes
+   of header + body nothing shows; one byte more and the emitted frame announces MaxInt32 as its message length while the
+   frame prefix and the header length are right: the statement above does not hold for that encoder *)
+Theorem c01_thrift_stale_slice_refuted :
+  (let out := thrift_encode_slow_sw false (fun _ _ => repeat 0 12%nat) [] 0 (repeat 7 1004%nat) in
+   blen out = 1029 /\ rd out 0 4 = blen out - 4 /\ rd out 10 12 = 21 /\ rd out 6 10 = 2147483647 /\ rd out 6 10 <> blen out - 4) /\
+  (let out := thrift_encode_slow_sw false (fun _ _ => repeat 0 12%nat) [] 0 (repeat 7 1003%nat) in
+   blen out = 1028 /\ rd out 6 10 = blen out - 4) /\
+  (forall whdr svc id payload, thrift_encode_slow_sw thrift_enc_fields_after_body whdr svc id payload = thrift_encode_slow whdr svc id payload).
+Proof. exact (conj thrift_stale_slice_refuted (conj thrift_stale_slice_small_ok thrift_late_is_slow)). Qed.
